@@ -45,6 +45,14 @@ CLAIMS = {
         "text": "Conservation, no over-issue, exactness of try_acquire and the per-operation permit deltas are Lean theorems over every initial count and every finite operation sequence of the poll-granular Semaphore model (induction on the history). " + _TIE + " Compared fields: outcome and permit counter.",
         "note": "PARTIAL: poll-granular (atomic calls); usize wrap-around outside the model (Nat); interleavings not yet covered by a theorem.",
     },
+    "C04": {
+        "text": "Lean theorems over every finite history of the poll-granular OnceCell model (any number of wait/get_or_init/get_or_try_init/set callers, initialisers resolved ok/err/panic or cancelled at any await point in any order, take between epochs): at most one initialiser runs and none once initialised (state 1 iff exactly one live caller holds the guard; a value is stored iff state 2); a stored value is never replaced until take/drop; whatever a completed caller reports is the stored value; set hands its argument back exactly when its closure did not run; take re-opens the cell. " + _TIE + " Compared fields: outcome (incl. reported value), state word, stored value, drop count.",
+        "note": "PARTIAL: 'dropped exactly once' is checked by the harness's per-instance drop log (and the drop count is compared with the model) but not yet a theorem; publication ordering and blocking forms are outside this model; atomic polls.",
+    },
+    "C08": {
+        "text": "Lean theorems over every finite history of the OnceCell model: once initialised and with no outstanding wake-up nobody polled is pending (C08_init); state 1 holds exactly while a live caller runs its initialiser, so Err, panic and cancellation all leave it (C08_not_stuck); in state 0 with no outstanding wake-up no polled get_or_init-style caller is pending, i.e. one was woken and took over (C08_handover); an error or panic is reported only in the poll in which the caller's own initialiser produced it (C08_blame). Invariants: WInv, RInv (registration on active_initializers / passive_waiters, no stale listeners), KInv (wake bookkeeping; all listeners notified in state 2; a notified active listener in state 0). " + _TIE,
+        "note": "PARTIAL: atomic polls; blocking forms and thread interleavings not covered. event-listener is modelled (notify_additional(usize::MAX) as 'notify every listener').",
+    },
     "C05": {
         "text": "No-lost-wake-up for the Mutex is a Lean theorem (invariant MInv: word, registration, wake bookkeeping, baton; induction over every history: any number of futures, cancellation at any moment of a future's life, completed futures kept alive, spurious polls and new wakers, bargers, both outcomes of the starvation test) about a model that includes event-listener's list semantics; the most-recent-waker clause is a separate theorem. " + _TIE + " Compared fields: outcome, wakers called, state word, listener count, notified flag.",
         "note": "PARTIAL: polls are atomic in the model; thread interleavings and lock_blocking waiters are not covered by the theorem. event-listener is modelled, not verified (but executes in-process in every differential run).",
